@@ -129,7 +129,7 @@ class Ctx:
         rc, out = sh(os.path.join(ROOT, 'tools/coq_make.sh') + ' theories/%s.vo' % prop_file, timeout=deps_timeout, cwd=COQ)
         logp = os.path.join(self.work, 'coq_%s.log' % prop_file)
         open(logp, 'w').write(out)
-        stats = self._count_obligations(prop_file)
+        stats = self._count_obligations(prop_file, out, rc == 0)
         self.cov['checker_cmd'] = 'make -k theories/%s.vo (coqc 8.16.1 full .vo build; kernel-checked Qed) + Print Assumptions' % prop_file
         if rc != 0:
             err = self._coq_error(out)
@@ -177,18 +177,36 @@ class Ctx:
             todo += self._depgraph.get(f, [])
         return [f for f in seen if os.path.exists(os.path.join(COQ, 'theories', f + '.v'))]
 
-    def _count_obligations(self, prop_file):
+    def _count_obligations(self, prop_file, make_output='', ok=True):
+        """obligations = Theorem/Lemma/... statements in the dependency closure; discharged = those in files that were
+        (re)built successfully by THIS run: a file named in an error of the make output, and every file that depends on
+        it, counts as not discharged even if a stale .vo is lying around"""
         total = done = 0
         pat = re.compile(r'^\s*(?:Local |Global |#\[[^\]]*\]\s*)*(Theorem|Lemma|Corollary|Example|Fact|Remark|Proposition)\s+(\w+)', re.M)
+        deps = self._deps(prop_file)
+        failed = set()
+        if not ok:
+            for m in re.finditer(r'File "\./?theories/([^"]+)\.v", line \d+[^\n]*\n(?:[^\n]*\n){0,3}?Error', make_output):
+                failed.add(m.group(1))
+            for m in re.finditer(r"\*\*\* \[[^\]]*theories/([^\]:]+)\.vo\]", make_output):
+                failed.add(m.group(1))
+            changed = True
+            while changed:          # close under "depends on a failed file"
+                changed = False
+                for f in deps:
+                    if f not in failed and any(d in failed for d in self._depgraph.get(f, [])):
+                        failed.add(f); changed = True
+            if not failed:
+                failed = {prop_file}
         files = {}
-        for f in self._deps(prop_file):
+        for f in deps:
             p = os.path.join(COQ, 'theories', f + '.v')
             n = len(pat.findall(open(p).read()))
             vo = p + 'o'
-            ok = os.path.exists(vo) and os.path.getmtime(vo) >= os.path.getmtime(p)
+            good = f not in failed and os.path.exists(vo) and os.path.getmtime(vo) >= os.path.getmtime(p)
             total += n
-            done += n if ok else 0
-            files[f] = [n, ok]
+            done += n if good else 0
+            files[f] = [n, good]
         self.notes.setdefault('coq_files', {}).update(files)
         return dict(total=total, done=done)
 
